@@ -4,6 +4,7 @@ import (
 	"fmt"
 	"os"
 	"runtime"
+	"runtime/debug"
 	"strconv"
 	"testing"
 	"time"
@@ -22,6 +23,9 @@ func TestMain(m *testing.M) {
 	// GOMAXPROCS is an input of the code under test (the Processor clamps its
 	// thread count to it); pin it so that a run is a function of the seed only.
 	runtime.GOMAXPROCS(envInt("VERIF_GOMAXPROCS", 8))
+	// unbounded recursion should die after 128 MiB of stack, not after the
+	// default 1 GiB
+	debug.SetMaxStack(128 << 20)
 	code := m.Run()
 	cleanupScratch()
 	os.Exit(code)
